@@ -482,6 +482,7 @@ fn execute(sc: &Scenario, osim: SimOs, rep: &mut RunReport) {
 }
 
 pub fn run_scenario(sc: &Scenario) -> RunReport {
+    crate::run::note_current(|| sc.to_json());
     let sc = sc.clone();
     let r = on_fresh_thread(sc.key_seed, move || {
         let mut rep = RunReport::default();
@@ -585,7 +586,15 @@ fn boundary_values(t: &Type, rng: &mut Rng, iters: &BTreeMap<String, Variable>) 
         Type::Bool => Variable::Bool(rng.chance(1, 2)),
         Type::String => Variable::from(*rng.pick(&["", " ", "abc", "  padded \t\n", "\u{df}\u{130}\u{1F600}", "12", "-7", "1e5", "a,b,,c", "\0", "NaN", "9223372036854775808", "+5", " 5", "1_000", "0x10", "-0", "inf", ".5", "5.", "\u{a0}x\u{a0}", "aXbXc", "X"])),
         Type::Void => Variable::Void,
-        Type::Any => Variable::Int(7),
+        Type::Any => {
+            // values of every shape, incl. cells that are reachable from themselves
+            let anys: Vec<&Variable> = iters.iter().filter(|(k, _)| k.starts_with("__any")).map(|(_, v)| v).collect();
+            if anys.is_empty() {
+                Variable::Int(7)
+            } else {
+                anys[rng.below(anys.len())].clone()
+            }
+        }
         Type::Array(e) => match e.as_ref() {
             Type::Int => Variable::from(rng.pick(&[vec![], vec![104i64, 105], vec![255, 256, -1, i64::MAX], vec![0xf0, 0x9f, 0x98, 0x80], vec![0xff]]).iter().map(|i| Variable::Int(*i)).collect::<Vec<_>>()),
             _ => Variable::from(rng.pick(&[vec![], vec![Variable::Int(1), Variable::from("a")], vec![Variable::Float(f64::NAN)]]).clone()),
@@ -709,6 +718,7 @@ fn walk_exports(prefix: &str, v: &Variable, out: &mut Vec<(String, Variable)>) {
 /// Calls every export that is not OS-facing with seeded boundary arguments; constants are checked
 /// against their declared (documented) types.
 pub fn run_table(key_seed: u64, arg_seed: u64) -> RunReport {
+    crate::run::note_current(|| json!({"sim": "ossim-table", "boot_seed": crate::boot::current(), "key_seed": key_seed, "arg_seed": arg_seed}));
     let r = on_fresh_thread(key_seed, move || {
         let mut rep = RunReport::default();
         os::install(SimOs::new());
@@ -723,6 +733,26 @@ pub fn run_table(key_seed: u64, arg_seed: u64) -> RunReport {
         ] {
             if let Ok(Ok(v)) = Code::parse(&interp, src).map(|c| c.exec()) {
                 iters.insert(ty.to_string(), v);
+            }
+        }
+        for (i, src) in [
+            "7",
+            "\"s\"",
+            "[[1, [2, [3, [4, [5, [6, [7]]]]]]]]",
+            "(1, (2.5, \"x\"))",
+            "struct{a := 1, b := [struct{c := 2}]}",
+            "std.len",
+            "mut 5",
+            "{ m := mut any 0; m = m; m }",
+            "{ n := mut any 0; n = struct{next := n}; n }",
+            "{ p := mut any 0; p = (p, [p]); p }",
+            "{ q := mut any 0; r := mut any q; q = r; [q, r] }",
+        ]
+        .iter()
+        .enumerate()
+        {
+            if let Ok(Ok(v)) = Code::parse(&interp, src).map(|c| c.exec()) {
+                iters.insert(format!("__any{i:02}"), v);
             }
         }
         let mut exports = Vec::new();
@@ -838,7 +868,8 @@ pub fn gen(seed: u64, boot_seed: u64, run: u64, faulty: bool) -> Scenario {
     let mut stdin = Vec::new();
     for _ in 0..n {
         let host = rng.chance(1, 2);
-        let last_path: Option<String> = calls.last().and_then(|c: &Call| c.args.first().cloned()).filter(|_| true);
+        // (the dot paths of the special copy_file case below are never re-used by other calls)
+        let last_path: Option<String> = calls.last().and_then(|c: &Call| c.args.first().cloned()).filter(|p| !matches!(p.as_str(), "." | ".." | "/"));
         let path = |rng: &mut Rng| {
             // faults need in-flight state: often stay on the path the previous call touched
             if let (Some(p), true) = (&last_path, rng.chance(1, 3)) {
@@ -846,6 +877,11 @@ pub fn gen(seed: u64, boot_seed: u64, run: u64, faulty: bool) -> Scenario {
             }
             if rng.chance(1, 60) {
                 "n".repeat(300)
+            } else if rng.chance(1, 40) {
+                // long names of multi-byte characters (2-, 3- and 4-byte ones at every alignment),
+                // 70-130 bytes: well below NAME_MAX
+                let ch = ["\u{df}", "\u{2713}", "\u{1F600}"][rng.below(3)];
+                format!("{}{}", "x".repeat(rng.below(4)), ch.repeat(70 / ch.len() + rng.below(12)))
             } else {
                 PATHS[rng.below(PATHS.len())].to_string()
             }
@@ -853,7 +889,9 @@ pub fn gen(seed: u64, boot_seed: u64, run: u64, faulty: bool) -> Scenario {
         let k = rng.below(100);
         if k < 8 {
             calls.push(Call { func: "io.cgetline".into(), args: vec![], host });
-            stdin.push(match rng.below(8) {
+            stdin.push(match rng.below(10) {
+                8 => StdinEvent::Line("trailing blanks  \t\n".as_bytes().to_vec()),
+                9 => StdinEvent::Line([" \n", "wide\u{3000}\n", "\t", "nbsp\u{a0}\n"][rng.below(4)].as_bytes().to_vec()),
                 0 => StdinEvent::Eof,
                 1 => StdinEvent::Err(ERRNOS[rng.below(ERRNOS.len())].0),
                 2 => StdinEvent::Line(vec![0xff, b'a', b'\n']),
@@ -875,6 +913,10 @@ pub fn gen(seed: u64, boot_seed: u64, run: u64, faulty: bool) -> Scenario {
                 vec![path(&mut rng)]
             } else if f.0 == "write_to_file" {
                 vec![path(&mut rng), CONTENTS[rng.below(CONTENTS.len())].to_string()]
+            } else if f.0 == "copy_file" && rng.chance(1, 10) {
+                // a source without a final name component and a target spelled as a directory: the
+                // source is refused before the target is looked at
+                vec![["", ".", "..", "/"][rng.below(4)].to_string(), ["d/", "b/", "m/"][rng.below(3)].to_string()]
             } else {
                 vec![path(&mut rng), path(&mut rng)]
             };
@@ -1017,6 +1059,7 @@ fn module_node(state: usize) -> Option<Node> {
 }
 
 pub fn run_import_case(case: &ImportCase, key_seed: u64) -> RunReport {
+    crate::run::note_current(|| import_case_json(case, crate::boot::current(), key_seed));
     let case = case.clone();
     let r = on_fresh_thread(key_seed, move || {
         let mut rep = RunReport::default();
